@@ -270,3 +270,81 @@ def preceding_exits(body: List[ast.stmt], target: ast.AST) -> List[ast.AST]:
 
     rec(body)
     return out
+
+
+def assigned_on_every_path(stmts: List[ast.stmt], name: str, target: ast.AST) -> Optional[bool]:
+    """True if on every path through `stmts` that reaches the statement containing `target`, `name` has been bound
+    (plain / augmented / loop / with binding) before; False if some path reaches it unbound; None if target is not in
+    stmts.  Syntax-directed definite-assignment analysis over if / for / while / try / with."""
+
+    def binds(st) -> bool:
+        tg = []
+        if isinstance(st, ast.Assign):
+            tg = st.targets
+        elif isinstance(st, (ast.AnnAssign, ast.AugAssign)):
+            tg = [st.target] if getattr(st, 'value', True) is not None else []
+        elif isinstance(st, (ast.For, ast.AsyncFor)):
+            tg = [st.target]
+        return any(isinstance(x, ast.Name) and x.id == name for t in tg for x in ast.walk(t))
+
+    def contains(node) -> bool:
+        return any(x is target for x in ast.walk(node))
+
+    found = {'v': None}
+
+    def block(sts, assigned: bool) -> bool:
+        """returns the assigned-state after the block (for paths that fall through)"""
+        for st in sts:
+            if contains(st):
+                if isinstance(st, ast.If):
+                    if contains(st.test):
+                        note(assigned)
+                    block(st.body, assigned) if any(contains(x) for x in st.body) else None
+                    block(st.orelse, assigned) if any(contains(x) for x in st.orelse) else None
+                elif isinstance(st, (ast.For, ast.AsyncFor, ast.While)):
+                    inner = assigned or (isinstance(st, (ast.For, ast.AsyncFor)) and binds(st))
+                    if any(contains(x) for x in st.body):
+                        block(st.body, inner)
+                    elif any(contains(x) for x in st.orelse):
+                        block(st.orelse, assigned)
+                    else:
+                        note(assigned)
+                elif isinstance(st, ast.Try):
+                    for part in (st.body, st.orelse, st.finalbody):
+                        if any(contains(x) for x in part):
+                            block(part, assigned)
+                    for h in st.handlers:
+                        if any(contains(x) for x in h.body):
+                            block(h.body, assigned)
+                elif isinstance(st, (ast.With, ast.AsyncWith)):
+                    block(st.body, assigned)
+                else:
+                    # a simple statement: its own binding happens after its right-hand side is evaluated
+                    note(assigned)
+                return assigned
+            if isinstance(st, ast.If):
+                a = block(st.body, assigned)
+                b = block(st.orelse, assigned)
+                ends_a = bool(st.body) and isinstance(st.body[-1], (ast.Return, ast.Raise, ast.Continue, ast.Break))
+                ends_b = bool(st.orelse) and isinstance(st.orelse[-1], (ast.Return, ast.Raise, ast.Continue, ast.Break))
+                assigned = (a or ends_a) and (b or ends_b) if (ends_a or ends_b) else (a and b)
+                if ends_a and not ends_b:
+                    assigned = b
+                elif ends_b and not ends_a:
+                    assigned = a
+            elif isinstance(st, (ast.For, ast.AsyncFor, ast.While)):
+                pass  # a loop body may run zero times: bindings inside do not count afterwards
+            elif isinstance(st, ast.Try):
+                assigned = block(st.body, assigned) and all(block(h.body, assigned) for h in st.handlers) if st.handlers \
+                    else block(st.body, assigned)
+            elif isinstance(st, (ast.With, ast.AsyncWith)):
+                assigned = block(st.body, assigned)
+            elif binds(st):
+                assigned = True
+        return assigned
+
+    def note(a: bool):
+        found['v'] = a if found['v'] is None else (found['v'] and a)
+
+    block(list(stmts), False)
+    return found['v']
